@@ -39,9 +39,17 @@ o P1 240105#H2 plain todo w0
     # a note that was copied to a second page: same text, two notes
     "h2.zo": """# H2 page
 
+- 240101#H0 earliest zid, on the second page
 - 240106#H3 untouched multi
   * keep me
 - 240107#H4 only here
+""",
+    # ... and a third page where the copy was EDITED: same ZID, other text
+    "h3.zo": """# H3 page
+
+- 240102#H5 early zid on the third page
+- 240106#H3 untouched multi, but edited on this page
+  * keep me too
 """,
 }
 
@@ -141,6 +149,7 @@ def cases(ctx):
     out = []
     for o in ([None] + [[k] for k in ORDER_KEYS]):
         out.append(["pipe", "HIST", 0, o, "direct"])
+        out.append(["pipe", "HIST", 2, o, "direct"])  # with a WHERE filter the rows come back ordered by ZID
     out.append(["pipe", "HIST", 0, ["alpha"], "zoq"])
     for o in (None, ["alpha"], ["type"]):
         out.append(["pipe", "ALLOC", 0, o, "direct"])
@@ -220,10 +229,20 @@ def run_case(ctx, case) -> F.Outcome:
             got = r["notes"]
             gz = [n["zid"] for n in got]
             nwant = _expected_count(base, where)
-            if sorted(set(z for z in gz if z)) != sorted(want) or len(gz) != nwant or (problems and name == "ALLOC"):
+            U_ = base.universe
+            exp_multi = sorted((n_["zid"], n_["kind"], n_["body"]) for n_ in U_.notes
+                               if where is None or Q.holds_or(where, n_, U_, DAY))
+            got_multi = sorted((n_["zid"], n_["kind"], n_["body"]) for n_ in got)
+            if name == "HIST" and exp_multi != got_multi and sorted(set(gz)) == sorted(want) and len(gz) == nwant:
+                problems.append(("compiled-notes-are-not-the-selected-notes:same-zid-other-text",
+                                 {"expected": exp_multi, "observed": got_multi}))
+            elif sorted(set(z for z in gz if z)) != sorted(want) or len(gz) != nwant or (problems and name == "ALLOC"):
                 problems.append(("compiled-notes-are-not-the-selected-notes", {"expected": sorted(want), "expected_count": nwant, "observed": gz}))
             else:
+                dup = {z for z in gz if gz.count(z) > 1}
                 for n in got:
+                    if n["zid"] in dup:
+                        continue  # judged as a multiset above
                     w = want[n["zid"]]
                     for f in ("kind", "body", "create", "modify"):
                         if n[f] != w[f]:
